@@ -27,10 +27,10 @@ Theorem C31_bag_given_full_except_known : forall (rel : nat -> list nat) (order 
 Proof. exact bag_given_full. Qed.
 Print Assumptions C31_bag_given_full_except_known.
 
-(* objects that all have a (pairwise different) key get pairwise different result keys; new objects without a key: Findings *)
-Theorem C31_bag_keys_except_known : forall (K : Type) (pks : list K), NoDup pks -> NoDup (bag_keys (map Some pks)).
+(* every object has its key when the result is keyed (Bag.to_dict flushes first): different objects, different result keys *)
+Theorem C31_bag_keys : forall (K : Type) (pks : list K), NoDup pks -> NoDup (bag_keys pks) /\ ~ In None (bag_keys pks).
 Proof. exact @bag_keys_nodup. Qed.
-Print Assumptions C31_bag_keys_except_known.
+Print Assumptions C31_bag_keys.
 
 (* non-vacuity: ('a*', ',c') and ('a', '*,c') -- equal after naive joining -- get different keys, and decode back *)
 Example C31_nonvacuous :
